@@ -1412,11 +1412,13 @@ pub fn explore(run: &Run, h: &Harness, xc: &ExploreCfg, tag: &str) -> ExploreSta
     st.max_op_events = st.max_op_events.max(out.max_op_events);
     crate::crashguard::EVALS.fetch_add(1, Ordering::Relaxed);
     // determinism self-test on the first schedules of every harness
-    if st.execs <= 16 {
+    // (an execution in which a violation was recorded may have gone through freed or foreign memory: its trace
+    // is not expected to repeat)
+    if st.execs <= 16 && out.viol.is_empty() && !out.cap_hit {
       let o2 = ExecOpts { tracing: true, hash_states: false, hb: xc.hb, drain: xc.drain, cache: false, bounded };
       let a = run_one(h, &p, &o2);
       let b = run_one(h, &p, &o2);
-      if a.trace != b.trace || a.choices.len() != out.choices.len() {
+      if (a.trace != b.trace || a.choices.len() != out.choices.len()) && a.viol.is_empty() && b.viol.is_empty() {
         eprintln!("machinery: schedule {:?} of {} is not deterministic", p, progs_str(&h.progs));
         std::process::exit(2);
       }
